@@ -368,3 +368,7 @@ def c15_cr_only_line_endings(rp):            # known
 def c10_import_unicode_cipher_name(rp):      # fixed acd4cf0
     return rp.get('kind') == 'parser' and rp.get('exc') == 'builtins.UnicodeDecodeError' and \
         str(rp.get('func', '')).startswith('import_private_key')
+
+
+def c05_hostbased_keys_accumulate(rp):       # fixed
+    return rp.get('kind') == 'hostbased' and rp.get('class') == 'hostbased_keys_accumulate'
